@@ -162,6 +162,7 @@ Section Main.
     width_ok u -> same_set (cols u) cs -> (0 < nrows u)%nat ->
     nodup_names (map fst ops) = true -> ops <> [] ->
     disjointb (map fst ops) (w_part w ++ w_order w) = true -> subset (w_part w ++ w_order w) cs = true ->
+    nodup_names (w_part w ++ w_order w) = true ->
     forallb (win_ok_b cs (map fst ops)) ops = true ->
     (ops_order_sensitive ops = true -> window_total fl_pandas (cols u) w (rows u)) ->
     px_extend_windowed srt ops w u = Some x ->
@@ -224,7 +225,7 @@ Section Main.
       + apply Nat.leb_gt in En. fold (window_situation wd w) in H, Ww. destruct (window_situation wd w) eqn:Ws0.
         * (* windowed *)
           apply andb_true_iff in Cw. destruct Cw as [Wok Wd]. subst wd.
-          apply andb_true_iff in Ww. destruct Ww as [Ww Wf]. apply andb_true_iff in Ww. destruct Ww as [Wdj Wsub].
+          apply andb_true_iff in Ww. destruct Ww as [Ww Wf]. apply andb_true_iff in Ww. destruct Ww as [Ww Wnd]. apply andb_true_iff in Ww. destruct Ww as [Wdj Wsub].
           assert (ops_order_sensitive ops = true -> window_total fl_pandas (cols u') w (rows u')) as G' by (intros Os; apply (TOw eq_refl Os u' Eu')).
           destruct (window_step Wok ops w u t (column_names s)) as [Ex Wx]; try assumption.
           { rewrite <- Cu'. apply refines_same_set, Rf. }
